@@ -1,7 +1,11 @@
 package zz_verifsim
 
 import (
+	"bytes"
 	"container/heap"
+	"runtime"
+	"strconv"
+	"sync"
 	"context"
 	"fmt"
 	"hash/fnv"
@@ -89,6 +93,12 @@ type World struct {
 	clients *clientSet
 	adv    *adversary
 	ended  bool
+	async      bool   // votes are verified in background goroutines, released one at a time by the scheduler
+	driverGID  uint64
+	pmu        sync.Mutex
+	parkedNew  []*parkedG
+	parkedAll  []*parkedG
+	parkCtr    uint64
 	healed bool // C05 plans: the synchronous phase has begun
 	onHeal []func()
 	stop   bool // a monitor has seen all it needs: end the run
@@ -234,6 +244,9 @@ func (w *World) process(nd *Node) {
 	w.step++
 	if w.clients != nil {
 		synctest.Wait() // let client goroutines that just got an outcome record it
+	}
+	if w.async {
+		w.collectParked()
 	}
 	w.afterStep(nd)
 	w.scheduleProcess(nd, w.procDelay(nd))
@@ -383,5 +396,78 @@ func (w *World) heal() {
 	w.logf("SYNC-PHASE quorum=%v", w.plan.Sync)
 	for _, f := range w.onHeal {
 		f()
+	}
+}
+
+// ---- asynchronous vote verification under the scheduler -----------------------------------------------
+
+type parkedG struct {
+	nd       *Node
+	ch       chan struct{}
+	released bool
+}
+
+func goid() uint64 {
+	var buf [64]byte
+	b := buf[:runtime.Stack(buf[:], false)]
+	b = bytes.TrimPrefix(b, []byte("goroutine "))
+	if i := bytes.IndexByte(b, ' '); i > 0 {
+		n, _ := strconv.ParseUint(string(b[:i]), 10, 64)
+		return n
+	}
+	return 0
+}
+
+// parkIfBackground blocks a verification goroutine (anything that is not the driver) until the
+// scheduler releases it; the driver decides, from the plan's seed, when and in which order.
+func (w *World) parkIfBackground(nd *Node) {
+	if goid() == w.driverGID {
+		return
+	}
+	p := &parkedG{nd: nd, ch: make(chan struct{})}
+	w.pmu.Lock()
+	w.parkedNew = append(w.parkedNew, p)
+	w.pmu.Unlock()
+	<-p.ch
+}
+
+// collectParked schedules the release of the verification goroutines that have just parked.
+func (w *World) collectParked() {
+	synctest.Wait()
+	w.pmu.Lock()
+	news := w.parkedNew
+	w.parkedNew = nil
+	w.pmu.Unlock()
+	for _, p := range news {
+		p := p
+		w.parkedAll = append(w.parkedAll, p)
+		w.parkCtr++
+		// verification takes anything from no time to a good part of a view
+		r := mix(w.plan.Inner, 0x76726679, uint64(p.nd.slot), w.parkCtr)
+		d := time.Duration(r%uint64(w.plan.ViewDur.Ms*300+1)) * time.Microsecond
+		if r%5 == 0 {
+			d = 0
+		}
+		w.probe("async-verification-parked")
+		w.after(d, "verify-done", func() { w.releaseParked(p) })
+	}
+}
+
+func (w *World) releaseParked(p *parkedG) {
+	if p.released {
+		return
+	}
+	p.released = true
+	prev := w.cur
+	w.cur = p.nd
+	close(p.ch)
+	synctest.Wait() // the goroutine runs to completion (or parks again) while the driver waits
+	w.cur = prev
+	w.logf("VERIFIED %s background verification finished", p.nd)
+	if !w.ended {
+		w.collectParked()
+	}
+	if !p.nd.crashed && !w.ended {
+		w.scheduleProcess(p.nd, 0)
 	}
 }
